@@ -54,7 +54,10 @@ fn totality_check(ty: &'static str) -> impl Fn(&[u64], &mut Tally) -> Result<(),
         let mut o = Obs::new();
         for e in API.iter().filter(|e| e.present && e.ty == ty) {
             // f64 entries read whole words, f32 entries the low half; the words were drawn for this type's width
-            let mut s = Src::new(w);
+            // padded operands (Vec3A, Mat3A, Affine3A, BVec3A) are built with the last argument words in their padding
+            // lanes in three cases out of four (as `from_vec4` and comparisons leave them), otherwise through `new`
+            let hid: Vec<u32> = w.iter().rev().take(8).map(|x| *x as u32).collect();
+            let mut s = if w[w.len() - 1] % 4 != 0 { Src::with_hidden(w, &hid) } else { Src::new(w) };
             o.clear();
             t.eval(1);
             let r = vcore::catch(|| call(e.id, &mut s, &mut o));
@@ -497,7 +500,7 @@ pub fn subs<'a>(_args: &Args) -> Vec<SubCheck<'a>> {
             format!("totality/{}/{}", if ty.is_empty() { "free-fns" } else { ty }, VARIANT),
             2,
             move |env: &mut Env| {
-                let n = env.cases(3000, 30);
+                let n = env.cases(3000 / VOLUME_DIV as u64, 30);
                 env.tally.notes.insert("api_entries".into(), json!(n_entries));
                 env.prop("totality", n, words_strategy(bits), &totality_check(ty));
             },
